@@ -176,6 +176,10 @@ class KernelAnalysis:
                 self._decl(p, 'out')
 
     def _out_is_tuple(self):
+        # `out[0] = ...` / `out[d] /= d` stores into an array; a tuple of arrays is never stored into
+        for st in walk_no_nested(self.fi.node):
+            if isinstance(st, ast.Subscript) and isinstance(st.value, ast.Name) and st.value.id == 'out' and isinstance(st.ctx, ast.Store):
+                return False
         for st in walk_no_nested(self.fi.node):
             if isinstance(st, ast.Assign) and isinstance(st.value, ast.Name) and st.value.id == 'out' \
                     and any(isinstance(t, (ast.Tuple, ast.List)) for t in st.targets):
